@@ -89,6 +89,7 @@ def run_case(args):
             res["evals"] += 1
             if a.get("dead"):
                 res["inconclusive"] = "runner died"
+                res["died_on"] = dict(sql=q.sql, setup=stmts, engine=engine, err=a.get("err", "")[-400:])
                 break
             if not a["ok"]:
                 if a.get("kind") in ("bind", "parse") or (a.get("kind") == "panic" and "binder" in str(a.get("panics"))):
@@ -167,6 +168,8 @@ def run(tier, seed):
             tags[k] = tags.get(k, 0) + v
         if res["inconclusive"]:
             rep.inc(res["inconclusive"][:50])
+            if res.get("died_on"):
+                rep.coverage.setdefault("runner_deaths", []).append(res["died_on"])
         if res["sample"]:
             rep.sample(res["sample"], limit=4)
         for v in res["violations"]:
